@@ -132,6 +132,14 @@ def run(ctx, rep):
     n_if, neg = clean_if
     raw = n_if.body if neg else n_if.orelse
     cln = n_if.orelse if neg else n_if.body
+    # helpers the clean path hands e.text / e.tail to (their first parameter stands for the text)
+    helpers = {}
+    for n in ast.walk(ast.Module(body=cln, type_ignores=[])):
+        if isinstance(n, ast.Call) and n.args and isinstance(n.args[0], ast.Attribute) and isinstance(n.args[0].value, ast.Name) \
+                and n.args[0].value.id == ep and n.args[0].attr in ("text", "tail"):
+            for tg in w.resolve_call(w.types(fi), n):
+                if tg.func is not None and tg.func.module is fi.module:
+                    helpers.setdefault(tg.func.qname, (tg.func, set()))[1].add(n.args[0].attr)
     for (f, item) in (("_content", "text"), ("_tail", "tail")):
         rep.count("raw-mode assignments")
         direct = [s for s in raw if isinstance(s, ast.Assign) and any(isinstance(t, ast.Attribute) and nm.canon(t.attr) == f for t in s.targets)]
@@ -180,6 +188,15 @@ def run(ctx, rep):
                 return ast.Name(id="FIELD", ctx=n.ctx)
             return n
     bt, bl = policy_block("text", "_content"), policy_block("tail", "_tail")
+    shared = [h for (h, kinds) in helpers.values() if kinds == {"text", "tail"}]
+    if shared and (bt is None or bl is None or True):
+        # both text and tail go through one helper with the same remaining arguments
+        calls_t = [n for n in ast.walk(ast.Module(body=cln, type_ignores=[])) if isinstance(n, ast.Call) and n.args and isinstance(n.args[0], ast.Attribute)
+                   and isinstance(n.args[0].value, ast.Name) and n.args[0].value.id == ep and n.args[0].attr in ("text", "tail")
+                   and any(tg.func is shared[0] for tg in w.resolve_call(w.types(fi), n))]
+        rest = {tuple(norm(a) for a in c.args[1:]) + tuple(sorted((k.arg, norm(k.value)) for k in c.keywords)) for c in calls_t}
+        if len(calls_t) >= 2 and len(rest) == 1:
+            bt = bl = []
     rep.count("whitespace-policy blocks", int(bt is not None) + int(bl is not None))
     if bt is None or bl is None:
         rep.add("R2", fi.qname, "clean-mode blocks", "clean mode does not treat both text and tail", fi.loc(n_if))
@@ -201,7 +218,7 @@ def run(ctx, rep):
         import sre_constants as _src
     allowed = {0x20, 0xA0, 0x09}
 
-    def pattern_of(call):
+    def pattern_of(call, _fi=None):
         """(pattern string, method) for re.search/match/fullmatch(pat, s) or COMPILED.search/match/fullmatch(s)"""
         f = call.func
         if not isinstance(f, ast.Attribute) or f.attr not in ("search", "match", "fullmatch"):
@@ -251,19 +268,30 @@ def run(ctx, rep):
         return {"search": begin and end, "match": end, "fullmatch": True}[method]
 
     keepers = 0
-    for n in ast.walk(ast.Module(body=cln, type_ignores=[])):
-        if isinstance(n, ast.If) and len(n.body) == 1 and isinstance(n.body[0], ast.Assign) and isinstance(n.body[0].value, ast.Attribute) \
-                and isinstance(n.body[0].value.value, ast.Name) and n.body[0].value.value.id == ep and n.body[0].value.attr in ("text", "tail"):
+    scan = [(fi, ast.Module(body=cln, type_ignores=[]), None)] + [(h, h.node, h.params[0] if h.params else None) for (h, _k) in helpers.values()]
+    for (sfi, root, tparam) in scan:
+        for n in ast.walk(root):
+            if not isinstance(n, ast.If) or len(n.body) != 1:
+                continue
+            b0 = n.body[0]
+            kept = None
+            if isinstance(b0, ast.Assign) and isinstance(b0.value, ast.Attribute) and isinstance(b0.value.value, ast.Name) and b0.value.value.id == ep \
+                    and b0.value.attr in ("text", "tail"):
+                kept = b0.value.attr
+            if tparam is not None and isinstance(b0, ast.Return) and isinstance(b0.value, ast.Name) and b0.value.id == tparam:
+                kept = "/".join(sorted(helpers[sfi.qname][1]))
+            if kept is None:
+                continue
             calls_ = [c for c in ast.walk(n.test) if isinstance(c, ast.Call) and pattern_of(c)]
             if not calls_:
                 continue
-            keepers += 1
+            keepers += 1 if tparam is None else len(helpers[sfi.qname][1])
             pat, method = pattern_of(calls_[0])
             ok = whole_blank(pat, method)
             rep.oblige(("R6", norm(n.test)[:60]), ok, sample={"keep-verbatim test": norm(n.test)[:70], "pattern": pat, "method": method})
             if not ok:
-                rep.add("R6", fi.qname, n.test, f"clean mode keeps the element's {n.body[0].value.attr} verbatim whenever `{pat}` {method}es; it may do so only for "
-                        f"text consisting entirely of spaces, tabs and non-breaking spaces (anchored at both ends)", fi.loc(n))
+                rep.add("R6", sfi.qname, n.test, f"clean mode keeps the element's {kept} verbatim whenever `{pat}` {method}es; it may do so only for "
+                        f"text consisting entirely of spaces, tabs and non-breaking spaces (anchored at both ends)", sfi.loc(n))
     rep.count("keep-verbatim tests", keepers)
     rep.floor("keep-verbatim tests", 2)
     # ---- R3 children
